@@ -1239,6 +1239,9 @@ fn main() {
         for f in finds {
             if f.prop == prop || prop == "all" {
                 oracle(out, f.prop, &f.key, &line, &f.what);
+            } else if prop == "C09" && f.prop == "C08" && !f.key.contains("host-ino-reused") {
+                // run as C09's sequential stage: a lost or surplus reference in a one-thread history
+                oracle(out, "C09", &f.key.replacen("C08:", "C09:seq:", 1), &line, &f.what);
             }
         }
         out.case(&line, &obs);
